@@ -414,9 +414,13 @@ func c06Run(r *vmc.Result, found *c06Findings, idx int, c c06Case) {
 			locals = append(locals, c06Gen(c.Mix, i))
 		}
 	}
+	unrep := map[string]bool{} // routes no announcement can carry
 	for _, lr := range locals {
 		if lr.addLocal(mgr) {
 			put(c06A, lr.canon(0))
+			if len(lr.pattern) > 255 || len(lr.key) > 255 || len(lr.target) > 255 {
+				unrep[lr.canon(0)] = true
+			}
 		} else {
 			r.Add("local_routes_refused_by_routing_manager", 1)
 		}
@@ -522,6 +526,21 @@ func c06Run(r *vmc.Result, found *c06Findings, idx int, c c06Case) {
 					fmt.Sprintf("%s: %d of %d routes of origin %s never reach the neighbour and nothing reported it (frames=%d, send errors=0, warnings=0), e.g. %v", describe(), len(missing), len(want[o]), o.ShortString(), obs.frames, c06Head(missing)), c)
 				if outcome == "" {
 					outcome = "silently-missing"
+				}
+			}
+			if len(missing) > 0 && visible && obs.undecodable == 0 {
+				// a visible refusal is only acceptable for a route the wire format cannot carry
+				// (a pattern, key or target of more than 255 bytes); every other route must arrive
+				var lost []string
+				for _, m := range missing {
+					if !unrep[m] {
+						lost = append(lost, m)
+					}
+				}
+				if len(lost) > 0 {
+					found.add(idx, "C06/"+site+"/representable-route-refused"+bucket(),
+						fmt.Sprintf("%s: %d route(s) of origin %s that fit the wire format were left out of the announcement (only a warning was logged), e.g. %v", describe(), len(lost), o.ShortString(), c06Head(lost)), c)
+					outcome = "representable-refused"
 				}
 			}
 			if len(missing) > 0 && visible && outcome == "" {
